@@ -1,4 +1,5 @@
 """ro model family: JSON-able specs -> description functions (run on both API sides)."""
+import copy
 import itertools
 import numpy as np
 
@@ -58,6 +59,15 @@ def desc_from_spec(spec):
             else:
                 a.maxmin(e, sets[ob['set']])
 
+        def row_expr(row):
+            # a row is affine (`e`) or piecewise: maxof(pieces) [+ plus]
+            if row.get('pieces'):
+                e = a.maxof(*[expr(a, xs, Y, zs, p) for p in row['pieces']])
+                if row.get('plus') is not None:
+                    e = e + expr(a, xs, Y, zs, row['plus'])
+                return e
+            return expr(a, xs, Y, zs, row['e'])
+
         dcount = [0]
 
         def decoy():
@@ -93,7 +103,7 @@ def desc_from_spec(spec):
         if 'late_forall' in hist:
             built = []
             for row in rows:
-                e = expr(a, xs, Y, zs, row['e'])
+                e = row_expr(row)
                 rhs = arr(row['rhs']) if isinstance(row['rhs'], list) else row['rhs']
                 c = {'le': a.le, 'ge': a.ge, 'eq': a.eq}[row['sense']](e, rhs)
                 a.note('row', e, rhs, row['sense'])
@@ -106,10 +116,11 @@ def desc_from_spec(spec):
                 a.st(c)
         else:
             built_rows = {}
+            deferred = []
             for ri, row in enumerate(rows):
                 if 'decoy_sets' in hist:
                     decoy()
-                e = expr(a, xs, Y, zs, row['e'])
+                e = row_expr(row)
                 rhs = arr(row['rhs']) if isinstance(row['rhs'], list) else row['rhs']
                 if real and row.get('same_object_as') is not None:
                     # the SAME constraint object is given to the model twice, each time with its own forall() set
@@ -120,7 +131,12 @@ def desc_from_spec(spec):
                 a.note('row', e, rhs, row['sense'])
                 if 'decoy_sets' in hist:
                     decoy()
-                a.st(c, forall=(sets[row['set']] if row.get('set') is not None else None))
+                if real and spec.get('defer_st'):
+                    # c1 = c.forall(S1); c2 = c.forall(S2); ...; st(c1); st(c2): the objects RETURNED by forall() are kept
+                    # and handed to the model only after every forall() has been called
+                    deferred.append(c.forall(*a.sets[sets[row['set']]]) if row.get('set') is not None else c)
+                else:
+                    a.st(c, forall=(sets[row['set']] if row.get('set') is not None else None))
                 if 'decoy_sets' in hist:
                     decoy()
                 if 'formulate_between' in hist:
@@ -160,6 +176,9 @@ def desc_from_spec(spec):
                     a.m.do_math() if obj_done else None
                     a.m.dvar(2)
                     a.m.rvar(1)
+        if real and spec.get('defer_st') and 'late_forall' not in hist:
+            for cf in deferred:
+                a.st(cf)
         if not obj_done:
             objective()
         if 'formulate_twice' in hist:
@@ -419,6 +438,25 @@ def core_specs():
         rows=[dict(e=[['xz', 0, 0, [[1, 0], [0, 1]]], ['x', 1, -1.0]], sense='le', rhs=0, set=0),
               dict(e=[['xz', 0, 0, [[1, 0], [0, 1]]], ['x', 1, -1.0]], sense='le', rhs=0, set=1, same_object_as=0)],
         obj=dict(kind='min', e=[['x', 1, 1.0], ['x', 0, [0.25, 0.25]]]))
+    # 3a'. one PIECEWISE constraint object given to the model twice with two different sets (the pieces are objects too)
+    add('same-pw-constraint-two-sets', dv=[dict(shape=[2]), dict(shape=[])], rv=[[2]],
+        sets=[box([0, 0], [3, 1]), box([-1, -1], [1, 2])],
+        bounds=[dict(x=0, lo=0.5, hi=2), dict(x=1, lo=-20, hi=20)],
+        rows=[dict(pieces=[[['xz', 0, 0, [[1, 0], [0, 1]]], ['x', 1, -1.0]], [['xz', 0, 0, [[-1, 0], [0, 2]]], ['x', 1, -1.0]]],
+                   sense='le', rhs=0, set=0),
+              dict(pieces=[[['xz', 0, 0, [[1, 0], [0, 1]]], ['x', 1, -1.0]], [['xz', 0, 0, [[-1, 0], [0, 2]]], ['x', 1, -1.0]]],
+                   sense='le', rhs=0, set=1, same_object_as=0)],
+        obj=dict(kind='min', e=[['x', 1, 1.0], ['x', 0, [-3.5, 0.25]]]))
+    S[-1]['pw_rows'] = True
+    S.append(dict(copy.deepcopy(S[-1]), name='same-pw-constraint-two-sets-deferred', defer_st=True))
+    # 3a''. a piecewise row with its own set next to the default set
+    add('pw-row-own-set', dv=[dict(shape=[2]), dict(shape=[])], rv=[[2]],
+        sets=[box([-1, -1], [1, 1]), box([-2, 0], [0.5, 3])],
+        bounds=[dict(x=0, lo=0.5, hi=2), dict(x=1, lo=-20, hi=20)],
+        rows=[dict(pieces=[[['xz', 0, 0, [[1, 0], [0, 1]]], ['x', 1, -1.0]], [['z', 0, [1, -1]], ['x', 1, -1.0], ['x', 0, [1, 0]]]],
+                   sense='le', rhs=1, set=1),
+              dict(e=[['xz', 0, 0, [[1, 0], [0, -1]]], ['x', 1, -1.0]], sense='le', rhs=0.5)],
+        obj=dict(kind='minmax', set=0, e=[['x', 1, 1.0], ['x', 0, [0.25, 0.25]], ['z', 0, [0.5, 0.5]]]))
     # 3b. strictly negative / strictly positive boxes (bound objects with ub < 0 and lb > 0)
     add('static-box-negative', dv=[dict(shape=[2])], rv=[[2]], sets=[box([-3, 0.5], [-1, 2])], bounds=bx,
         rows=[dict(e=[['x', 0, [1, 2]], ['xz', 0, 0, [[1, 1], [0, -1]]]], sense='le', rhs=9),
